@@ -1,15 +1,16 @@
 PROP = {
-    "kani_groups": ["hk_core_min"],
+    "kani_groups": ["hk_core_min", "hk_emit_std"],
     "smt": [],
     "technique": "bounded model checking (Kani/CBMC) of Template::eq and Render::write over symbolic part lists",
     "functions": [
         "emit_core::template::{Template::eq, new_ref, literal_ref, by_ref, as_literal, render, Render::write, "
         "Render as Display, Part::{text_ref, hole_ref, with_formatter, write}, Write for fmt::Formatter}",
+        "alloc: Template::to_owned, Part::to_owned, the Owned representation (hk_emit_std: c16_q_owned_renders_like_borrowed)",
     ],
     "bounds": "templates of <= 3 parts; text of <= 3 characters over {a, b, U+00E9} split at symbolic character "
               "boundaries (empty fragments allowed); hole labels from {x, y, empty}; <= 2 properties with keys from the "
               "label pool (duplicates allowed); emit_core built with no features (Literal and Parts representations)",
-    "outside": "templates with more than 3 parts; the Owned (alloc) representation; macro-generated templates (tpl!) "
+    "outside": "templates with more than 3 parts (4 concrete parts for the Owned representation); macro-generated templates (tpl!) "
                "beyond what the API-built equivalents cover; number formatting inside hole formatters",
     "stubs": [],
     "assumptions": ["text fragments are valid UTF-8 split at character boundaries"],
